@@ -190,14 +190,14 @@ CLAIMS = {
              "lifetime are exercised by the oracle runs only.",
         ref="4/C20"),
     "C19": dict(
-        technique="Coq proof: inductive invariant (OnceInv.J, nine components with counting of helpers inside the reference window / pinned to a runner) over ALL interleavings for ANY number of callers and any pattern of throwing attempts, at the granularity of single accesses to m_state / m_ref_count; in addition exhaustive exploration of five small configurations (Lib/Explore.v); TRACE CONFORMANCE tie: the real collaborative_call_once (header compiled under the atomic prelude) runs with real threads, every access to m_state and to a published runner's m_ref_count is executed and logged under one lock and the log is replayed access by access on the model inside the extracted Coq function OnceConf.conform; real-thread oracle runs for call_once and thread-specific storage",
+        technique="Coq proof: inductive invariant (OnceInv.J, nine components with counting of helpers inside the reference window / pinned to a runner) over ALL interleavings for ANY number of callers and any pattern of throwing attempts, at the granularity of single accesses to m_state / m_ref_count; in addition exhaustive exploration of five small configurations (Lib/Explore.v); TRACE CONFORMANCE tie: the real collaborative_call_once (header compiled under the atomic prelude) runs with real threads, every access to m_state and to a published runner's m_ref_count is executed and logged under one lock and the log is replayed access by access on the model inside the extracted Coq function OnceConf.conform; real-thread oracle runs for call_once; for the thread-id table of enumerable_thread_specific/combinable: Coq proof of an inductive invariant over all interleavings of the deciding accesses (EtsModel/EtsProofs), sequential differential tie, real-thread oracle with lined-up growth",
         text="Proved for any number of callers, any throw pattern, every reachable configuration: no access to a destroyed runner, at most one successful execution, a caller that returned normally did so after the successful execution with the flag done "
              "(call_once_safety); no configuration is stuck — if no thread can step every caller has returned, i.e. every spin-wait of the protocol has somebody who can release it (call_once_never_stuck); when all callers have returned: exactly one success and done, "
              "or every attempt threw, each such caller got its exception, and the flag is back to not-called (call_once_outcome). Also, for 2 and 3 callers (with and without throwing attempts) every reachable configuration (all interleavings, no depth bound; theorem call_once_all_interleavings) has at most one successful execution, no caller past the flag before "
-             "that execution completed, and is not stuck; completed to quiescence: exactly one success, every caller returned (the throwing attempt's caller with the exception), final state done. Real threads: one success, no overlapping executions, return only after completion, "
+             "that execution completed, and is not stuck; completed to quiescence: exactly one success, every caller returned (the throwing attempt's caller with the exception), final state done. Thread-id table (any number of threads and accesses, any interleaving): no array is ever filled above one half, so every probe ends at an empty slot (ets_arrays_at_most_half_full — the counting argument: a thread with number c only ever inserts into arrays of at least 2c slots, numbers are distinct); a thread is given at most one element and finds its key again however the table grew (ets_one_element_per_thread, ets_key_is_found_again); nobody ever waits (ets_lookup_never_blocks). Real threads: one success, no overlapping executions, return only after completion, "
              "exceptions delivered to the right callers; enumerable_thread_specific/combinable: one element per thread, stable addresses, one initialiser call, iteration/combine exactly once (2-130 threads across table doublings).",
         note="PARTIAL: the tie is trace conformance on the schedules real threads produce (with seeded delays at the logged accesses), not an exhaustive schedule enumeration; each caller calls once (a runner object is never reused); the arena work inside assist() is abstracted to waiting for the winner's function; "
-             "the thread-specific-storage table is not modelled.",
+             "the thread-id table model abstracts an array to (size, key set): hash positions, the probe order and the non-atomic ptr store after the claim are not modelled; its concurrent behaviour is tied to the code only sequentially (ets-seq) and through oracle runs (ets, ets-grow).",
         ref="4/C19"),
 }
 
